@@ -250,6 +250,9 @@ def judge(rep: Report, traces, owners) -> None:
 
 
 def main(rep: Report, replay: dict | None) -> None:
+    import gc
+
+    gc.disable()  # tens of thousands of acyclic trace records: a full collection stalls for seconds
     rep.assumptions += ASSUMPTIONS
     rep.rule = (
         "MC_TtyFault: (operation x read mode x predicate) x initial word {canonical,raw} x {echo on,off} x VMIN/VTIME "
@@ -354,6 +357,7 @@ def main(rep: Report, replay: dict | None) -> None:
         run_sigints(rep, session, rng, [json.loads(w) for w in words], 12 if quick else 120, traces, owners)
         lap("sigint")
     finally:
+        rep.extra["pty_stalls_retried"] = getattr(session, "stalls", 0)
         session.close()
     rep.extra["pty_fault_runs"] = len(picks)
     # 4. the alarm rings: tamper with the final word of real traces (several, of different
